@@ -167,12 +167,58 @@ def run_chunk(chunk):
                     continue
                 if ref != v:
                     kinds = ",".join(sorted(_kinds(f)))
-                    r.viol(f"open-{v}-but-completion-{ref}/{kinds}",
+                    key = f"open-{v}-but-completion-{ref}/{kinds}"
+                    if "count" in kinds and _count_search_gives_up(f, proot, c, g):
+                        key = "open-False-but-completion-True/count"  # root cause confirmed on the count() call itself
+                    r.viol(key,
                            f"evaluate({text!r}) = {v} on open tree {_show(proot)}, but its completion {tstr(c)!r} {'satisfies' if ref else 'violates'} it",
                            _case(name, proot, f, c), ref, v)
                     break
         r.sample({"grammar": name, "open_tree": _show(proot), "formulas": len(parsed)}, limit=2)
     return r
+
+
+def _count_atoms(f, types, acc):
+    """(in_var type or None for start, needle, k) of every count atom with a literal number"""
+    k = f[0]
+    if k in ("forall", "exists"):
+        _count_atoms(f[5], dict(types, **{f[2]: f[1]}), acc)
+    elif k in ("forall_int", "exists_int"):
+        _count_atoms(f[2], types, acc)
+    elif k in ("not", "and", "or"):
+        for g_ in f[1:]:
+            _count_atoms(g_, types, acc)
+    elif k == "count" and f[3][0] == "s":
+        acc.append((types.get(f[1]), f[2], f[3][1]))
+    return acc
+
+
+def _count_search_gives_up(f, proot, completion, g):
+    """root cause of the known finding, checked on count() directly: on an open (sub)tree it answers a definite
+    False although the corresponding subtree of this completion has exactly the requested number of needles"""
+    from isla import isla_predicates as ip
+    from isla.derivation_tree import DerivationTree as DT
+    from grammar_graph import gg
+
+    graph = gg.GrammarGraph.from_grammar(g)
+    for T, needle, kk in _count_atoms(f, {}, []):
+        if not kk.isdigit():
+            continue
+        for p, st in paths(proot):
+            if (T is None and p == ()) or (T is not None and st[0] == T):
+                if not any(s2[1] is None for _q, s2 in paths(st)):
+                    continue
+                try:
+                    sub_c = completion
+                    for i in p:
+                        sub_c = sub_c[1][i]
+                    have = sum(1 for _q, s2 in paths(sub_c) if s2[0] == needle)
+                    res = ip.count(graph, to_dt(st), needle, DT(kk, None))
+                except Exception:  # noqa
+                    continue
+                if res.ready() and res.false() and have == int(kk):
+                    return True
+    return False
 
 
 def _kinds(f):
@@ -217,7 +263,10 @@ def replay(case):
     ref = sem.sat(cg, c, f)
     if ref is not sem.EITHER and ref != v:
         kinds = ",".join(sorted(_kinds(f)))
-        r.viol(f"open-{v}-but-completion-{ref}/{kinds}", f"evaluate({text!r}) = {v} on open tree {_show(p)}, completion {tstr(c)!r} gives {ref}", case, ref, v)
+        key = f"open-{v}-but-completion-{ref}/{kinds}"
+        if "count" in kinds and _count_search_gives_up(f, p, c, g):
+            key = "open-False-but-completion-True/count"
+        r.viol(key, f"evaluate({text!r}) = {v} on open tree {_show(p)}, completion {tstr(c)!r} gives {ref}", case, ref, v)
     return r.viols
 
 
